@@ -4,6 +4,7 @@ CONSTANTS
   MaxSlot = 1000
   MaxGen = 1000
   MaxFaults = 100000
+  MaxPersist = 1000
   Variants = 2
   Kinds = {"att", "blk"}
   FaultKinds = {"crash", "crashafter", "fail", "rerr", "rmiss"}
